@@ -50,13 +50,12 @@ def native_plan(tier):
         ('union_internal_step_le3', state_alpha(3) + ';0-2;0-2', 'every INV state of <= 3 elements x every (x, y)'),
         ('uf_state_sweep', '1-4', 'every INV state of exactly 1..4 elements (pruned enumeration: 1 + 7 + 223 + 21361 states) x every argument of find, union_internal, union, push, class iterator'),
         ('uf_history_le4', ';'.join(['0-24'] * 4), 'every history of <= 4 operations {add, find_item, union_add, union_add_clone} over 3 items'),
-        ('trrel_uf_history_le5', ';'.join(['0-16'] * 5), 'every history of <= 5 add(x, y) over 4 items (incl. self pairs, repeats, back edges)'),
+        ('trrel_uf_history_le6', ';'.join(['0-16'] * 6), 'every history of <= 6 add(x, y) over 4 items (incl. self pairs, repeats, back edges; two chained class collapses need 5-6 adds)'),
     ]
     if tier == 'thorough':
         plan += [
             ('uf_state_sweep', '5', 'every INV state of exactly 5 elements (4615801 states, 281563861 contract evaluations)', 'uf_state_sweep_n5'),
             ('uf_history_le6', ';'.join(['0-24'] * 6), 'every history of <= 6 operations over 3 items'),
-            ('trrel_uf_history_le6', ';'.join(['0-16'] * 6), 'every history of <= 6 add(x, y) over 4 items'),
         ]
     return plan
 
@@ -96,6 +95,8 @@ def run_unit(tier, crate_info=None):
         fk = ex.submit(kani_part)
 
         def one(p):
+            if p[0].startswith(('trrel_uf_history', 'uf_history')):
+                return p, kani.native_exhaust_sharded(binary, p[0], p[1], shards=8, timeout=1500)
             return p, kani.native_exhaust(binary, p[0], p[1], timeout=1500)
         with ThreadPoolExecutor(max_workers=6) as ex2:
             for p, r in ex2.map(one, plan):
